@@ -66,6 +66,31 @@ def _d3_obs(ctx, tree, ch, label="ref->lib"):
     return obs
 
 
+def h_d2_counts(ctx, n_attrs, n_children):
+    """list sizes across the 8/16-bit header boundary: the reference decodes what the library writes"""
+    return _d2_obs(ctx, CC.count_tree(ctx, n_attrs, n_children))
+
+
+def h_two_deflated(ctx, n):
+    """the peer compresses several frames of one connection: the SAME decoder (the coder layer keeps one per connection) reads a compressed
+    frame, a plain one and another compressed one; each comes back as the tree the reference encoder was given"""
+    from yowsup.layers.coder.decoder import ReadDecoder
+    from yowsup.layers.coder.tokendictionary import TokenDictionary
+    enc, dec0, td, N = CC.lib()
+    dec = ReadDecoder(TokenDictionary())
+    trees = [N("iq", {"id": "i%d" % i, "type": "result"}, [N("x%d" % i, {"v": "%d" % (i * 7)})]) for i in range(n)]
+    order = ctx.choice("compressed_frames", ["first and last", "all", "none", "only the second"])
+    obs = []
+    for i, t in enumerate(trees):
+        frame = bytes(ref_encode(ctx, CC.to_ref(t), W().SHORTEST)) if not H.sym(ctx) else bytes(bytearray(ref_encode(ctx, CC.to_ref(t), W().SHORTEST).items))
+        deflate = order == "all" or (order == "first and last" and i in (0, n - 1)) or (order == "only the second" and i == 1)
+        if deflate:
+            frame = b"\x02" + zlib.compress(frame[1:])
+        out = dec.getProtocolTreeNode(bytearray(frame))
+        obs += CC.tree_obs("frame %d%s" % (i, " (deflated)" if deflate else ""), t, out)
+    return obs
+
+
 def h_d2_after_rejected(ctx, slot, n):
     """the frame the library writes for a well-formed stanza directly after one it had to refuse is a valid frame for the reference decoder"""
     bad = CC.bad_stanza(ctx.choice("rejected_first", list(CC.BAD_STANZAS)))
@@ -226,6 +251,9 @@ def cases(tier):
                     continue
                 cs.append(dict(name="d3-slot[%s,n=%d,%s]" % (slot, n, chn), fn=h_d3_slot, args=(slot, n, chn), weight=6 ** n,
                                timeout_s=300 if q else 3000, max_paths=400000))
+    for a, c in ((0, 255), (2, 256), (255, 257), (127, 0), (128, 3)):
+        cs.append(dict(name="d2-counts[a=%d,c=%d]" % (a, c), fn=h_d2_counts, args=(a, c), weight=1 + (a + c) / 20.0, timeout_s=300))
+    cs.append(dict(name="d3-several-frames-through-one-decoder[3 frames, some deflated]", fn=h_two_deflated, args=(3,)))
     for slot in ("val", "tag", "data"):
         cs.append(dict(name="d2-after-rejected-stanza[%s,n=1]" % slot, fn=h_d2_after_rejected, args=(slot, 1), weight=20, timeout_s=300 if q else 3000, max_paths=400000))
     for cls in ("digits", "nibble", "hex", "HEX-only"):
